@@ -14,6 +14,7 @@ Space: trees from 4 small specs (one with generators = read-only subtrees), all 
 from __future__ import annotations
 
 import itertools
+import zlib
 import os
 import random
 import sys
@@ -292,7 +293,7 @@ def run(tier="quick", seed=0, pid="C10"):
             seqs = seqs[:1200]
         for seq in seqs:
             for k in range(2):
-                sd = seed * 7919 + k * 31 + hash(tuple(n for n, _ in seq)) % 1000
+                sd = seed * 7919 + k * 31 + zlib.crc32(repr(tuple(n for n, _ in seq)).encode()) % 1000
                 evaluations += 1
                 distinct.add((sname, tuple(n for n, _ in seq), k))
                 try:
@@ -321,7 +322,7 @@ def run(tier="quick", seed=0, pid="C10"):
 
 
 def rndsample(seq):
-    return hash(tuple(n for n, _ in seq)) % 29 == 0
+    return zlib.crc32(repr(tuple(n for n, _ in seq)).encode()) % 29 == 0
 
 
 def replay_script(sname, names, sd):
